@@ -103,6 +103,11 @@ func (e *testEnv) monitorStoreFault(sc scenario, plan map[string]string, dataFau
 	if loadFault && len(v.Hits) > 0 {
 		c.violation("C13", "request forwarded upstream although the session store failed / returned bad data", input)
 	}
+	// a failed WRITE during a refresh: the code deliberately keeps the (refreshed, validated) in-memory
+	// session and serves the request although the new tokens were not persisted — recorded known finding
+	if sc.name == "refresh" && faulted("save#1") && !loadFault && len(v.Hits) > 0 {
+		c.known("C13", "C13-refresh-save-failure-served", "refresh succeeded at the IdP, store.Save failed, request forwarded as authenticated with tokens that were never persisted")
+	}
 	// never a cookie for a session that was not persisted
 	if faulted("save#1") && plan["save#1"] == "before" && hasSessionSet(v, e.opts.Cookie.Name) {
 		c.violation("C13", "session cookie handed out although the store write failed", input)
